@@ -1,7 +1,8 @@
 #!/usr/bin/env python3
 """debug helper: dbg.py <families,comma> <n> <seed> [ft] [events]"""
 import sys, json, random
-sys.path.insert(0, '/verif/bin')
+import os
+sys.path.insert(0, os.path.dirname(os.path.abspath(__file__)))
 import vlib, gen_api
 fams = sys.argv[1].split(","); n = int(sys.argv[2]); seed = int(sys.argv[3])
 ft = "ft" in sys.argv[4:]
